@@ -356,10 +356,24 @@ def check_apply(ctx):
 def native_options(ctx):
     """create a keyspace with non-default options, reopen while passing different options, compare what is in force"""
     last = (False, None, 'not run')
-    for kind in ('leveled', 'fifo', 'blob'):
-        L = ['dir $DIR/db', 'open workers=0', f'ks_opts a {kind} 1', 'options a', 'insert a 6b31 31', 'close',
-             'open workers=0', 'ks_opts a other 2', 'options a', 'close', 'open workers=0', 'ks a', 'options a', 'close']
-        spath, out = ctx.run_scenario('\n'.join(L) + '\n', tag=f'options-{kind}')
+    TREE_FIELDS = ['data_block_size', 'data_block_compression', 'index_block_compression', 'data_block_restart_interval', 'index_block_pinning', 'filter_block_pinning',
+                   'data_block_hash_ratio', 'index_block_partitioning', 'filter_block_partitioning', 'filter_policy']
+
+    def tree_mismatch(opt):
+        """the tree must run with the policies the keyspace reports (what is stored is also what is in force)"""
+        kv = dict(x.split('=', 1) for x in opt.split(';') if '=' in x and not x.startswith('tree='))
+        tr = [x for x in opt.split(';') if x.startswith('tree=[')]
+        if not tr:
+            return None
+        parts = tr[0][len('tree=['):-1].split('|')
+        for name, got in zip(TREE_FIELDS, parts):
+            if name in kv and kv[name] != got:
+                return f'{name}: the keyspace reports {kv[name]}, its tree runs with {got}'
+        return None
+    for kind, var in (('leveled', 1), ('fifo', 1), ('blob', 1), ('leveled', 2)):
+        L = ['dir $DIR/db', 'open workers=0', f'ks_opts a {kind} {var}', 'options a', 'insert a 6b31 31', 'close',
+             'open workers=0', f'ks_opts a other {3 - var}', 'options a', 'close', 'open workers=0', 'ks a', 'options a', 'close']
+        spath, out = ctx.run_scenario('\n'.join(L) + '\n', tag=f'options-{kind}-{var}')
         rs = [(c, r) for _i, c, r in out]
         if any(c == 'CRASH' for c, _r in rs):
             return True, spath, 'crash: ' + rs[-1][1][-300:]
@@ -372,6 +386,10 @@ def native_options(ctx):
         if len(o) == 3 and not (o[0] == o[1] == o[2]):
             diff = [(a, b) for a, b in zip(o[0].split(';'), o[1].split(';')) if a != b] or [(a, b) for a, b in zip(o[0].split(';'), o[2].split(';')) if a != b]
             return True, spath, f'options in force changed across reopen ({kind}): {diff[:2]}'
+        for i_, oo in enumerate(o):
+            mm = tree_mismatch(oo)
+            if mm:
+                return True, spath, f'option not in force ({kind}, variant {var}, {"at creation" if i_ == 0 else "after reopen"}): {mm}'
         last = (False, spath, 'held natively')
     return last
 
